@@ -63,6 +63,18 @@ CLAIMED = {
         note=CORE_NOTE + ' ABC contracts assumed: iterating a Collection and indexing a Mapping at a present key do not mutate.',
         technique='Coq proof: trace-safety invariant established by induction on hints inside the evaluator correctness proof + spy-container correspondence',
         design='5/C10'),
+    'C12': dict(
+        text='Machine-checked (Coq 8.16.1): the inline code generated from a validator expression of any depth '
+             '(regenerated vale snippets composed as the vale classes compose them) evaluates to the boolean meaning '
+             'of the expression for every object, state and table of total boolean user callables, never raises, and '
+             'binds only temporaries whose names strictly extend its subject variable (no live variable is '
+             'clobbered); the Annotated branch of the generator and-s metahint and validators, so the generated '
+             'check of Annotated[T, V...] is (sampled check of T) and (all Vi). Random validator expressions are run '
+             'through validator.is_valid, is_bearable at the root / in list[...] / in dict[...], and the violation '
+             'message, against the model, on every run. Three defects found this way (F10, F11, F19) were repaired.',
+        note=CORE_NOTE + ' User callables of Is[...] are total boolean functions from a closed table; temporaries are structured names.',
+        technique='Coq proof by induction on validator expressions (code = meaning, freshness of temporaries) + translator-regenerated snippets + differential correspondence',
+        design='5/C12'),
     'C06': dict(
         text='Machine-checked refinement (Coq 8.16.1): the trie registry model answers every query, reports every '
              'per-call outcome and holds the path hook exactly as a flat longest-prefix specification does, for '
